@@ -18,11 +18,13 @@ CONSTANTS
   NPoints = {3}
   XLevels = {8, 16, 24}
   YLevels = {1, 3}
+  Probe = "reps"
   Depth = 2
 INVARIANT Consistent
 INVARIANT TripIffPickup
 INVARIANT GradedIsMonotone
 INVARIANT BoundariesProbed
+INVARIANT RepsCoverStages
 INVARIANT DecoyFlips
 INVARIANT Stateless
 INVARIANT SwitchFollows
